@@ -145,7 +145,20 @@ def c20(cx):
                 what="real UnixToTimeslot/TimeslotToUnix sampled by stride and randomly; handler decisions at uint32 extremes; production constants")
 
 
-PLANS = {"C01": c01, "C02": c02, "C03": c03, "C04": c04, "C06": c06, "C07": c07, "C18": c18, "C19": c19, "C20": c20}
+def c16(cx):
+    cx.assumptions += ["readings in strict comparisons are dyadic rationals n/2^k (k<=3, |n|<2^19) and calibrations are integers, so that Go's float64 "
+                       "arithmetic is exact and equals the specification's integer arithmetic; NaN/Inf/overflow/zero divider: crash-freedom only",
+                       "negative float -> uint64 conversion wraps as on amd64 (implementation-defined in Go; only amd64 is observable here)"]
+    q = cx.tier == QUICK
+    cx.mc("MC_Energy", "MC_Energy.cfg", {"EDefects": "{}", "MaxRows": 2 if q else 3},
+          note="all files of <=2/3 rows over 4 field counts x 5 timestamp classes x 5 reading classes, 4 calibrations")
+    r = cx.drv_ok("energy")
+    cx.validate("Trace_Energy", "Trace_Energy.cfg", r["trace"],
+                what="abstract files rendered to CSV spellings (header variants, quoted fields, CRLF, wrong column counts, scientific notation) "
+                     "parsed by the real reader; all calibration files of <=3 lines over 8 line classes")
+
+
+PLANS = {"C01": c01, "C02": c02, "C03": c03, "C04": c04, "C06": c06, "C07": c07, "C16": c16, "C18": c18, "C19": c19, "C20": c20}
 
 
 def replay(cx, path):
